@@ -201,14 +201,26 @@ class Flattener:
                 out.append(Seg('lit', lit))
             if fname is None:
                 continue
-            if fname == '':
+            # field names may carry attribute / index access: `{0.value:10.2f}`, `{p.CurrentUnits.value}`, `{0[2]}`
+            m_ = re.match(r'^([^.\[]*)(.*)$', fname)
+            head, tail = (m_.group(1), m_.group(2)) if m_ else (fname, '')
+            if head == '':
                 idx = auto
                 auto += 1
-            elif fname.isdigit():
-                idx = int(fname)
+            elif head.isdigit():
+                idx = int(head)
             else:
                 idx = None
-            node = args[idx] if idx is not None and idx < len(args) else next((k.value for k in keywords if k.arg == fname), None)
+            node = args[idx] if idx is not None and idx < len(args) else next((k.value for k in keywords if k.arg == head), None)
+            if node is not None and tail:
+                try:
+                    node = ast.parse(f'({norm(node)}){tail}', mode='eval').body
+                    for sub in ast.walk(node):
+                        pass
+                    from .srcmodel import set_parents
+                    set_parents(node)
+                except Exception:
+                    node = None
             if node is None:
                 out.append(Seg('value', '?', None, spec or ''))
             else:
